@@ -24,6 +24,19 @@ pub assume_specification [ResourceSet::contains] (a: &ResourceSet, b: &ResourceS
 pub assume_specification [ResourceSet::intersection] (a: &ResourceSet, b: &ResourceSet) -> (r: ResourceSet) ensures r == rs_intersection(*a, *b);
 pub assume_specification [RequestResourceLimit::apply_to] (l: &RequestResourceLimit, s: &ResourceSet) -> (r: Result<ResourceSet, provisioning::Error>)
     ensures r is Ok ==> r->Ok_0 == limit_apply(*l, *s);
+#[verifier::external_type_specification] #[verifier::external_body] pub struct ExAsBlocks(AsBlocks);
+#[verifier::external_type_specification] #[verifier::external_body] pub struct ExIpv4Blocks(Ipv4Blocks);
+#[verifier::external_type_specification] #[verifier::external_body] pub struct ExIpv6Blocks(Ipv6Blocks);
+pub assume_specification [ResourceSet::new] (a: AsBlocks, v4: Ipv4Blocks, v6: Ipv6Blocks) -> (r: ResourceSet);
+pub assume_specification [ResourceSet::asn] (r: &ResourceSet) -> (o: &AsBlocks);
+pub assume_specification [ResourceSet::ipv4] (r: &ResourceSet) -> (o: &Ipv4Blocks);
+pub assume_specification [ResourceSet::ipv6] (r: &ResourceSet) -> (o: &Ipv6Blocks);
+pub assume_specification [RequestResourceLimit::asn] (r: &RequestResourceLimit) -> (o: Option<&AsBlocks>);
+pub assume_specification [RequestResourceLimit::ipv4] (r: &RequestResourceLimit) -> (o: Option<&Ipv4Blocks>);
+pub assume_specification [RequestResourceLimit::ipv6] (r: &RequestResourceLimit) -> (o: Option<&Ipv6Blocks>);
+pub assume_specification [<AsBlocks as Clone>::clone] (n: &AsBlocks) -> (r: AsBlocks);
+pub assume_specification [<Ipv4Blocks as Clone>::clone] (n: &Ipv4Blocks) -> (r: Ipv4Blocks);
+pub assume_specification [<Ipv6Blocks as Clone>::clone] (n: &Ipv6Blocks) -> (r: Ipv6Blocks);
 pub assume_specification [KrillSigner::sign_cert] (s: &KrillSigner, tbs: TbsCert, k: &KeyIdentifier) -> (r: Result<Cert, crypto::Error>)
     ensures r is Ok ==> cert_resources(r->Ok_0) == tbs_resources(tbs) && cert_key(r->Ok_0) == tbs_key(tbs);
 pub assume_specification [IssuanceTimingConfig::new_child_cert_validity] (a: &IssuanceTimingConfig) -> (r: Validity);
@@ -58,6 +71,22 @@ impl ResourceSet {
     pub fn intersection(&self, _o: &ResourceSet) -> ResourceSet { unimplemented!() }
 }
 impl RequestResourceLimit { pub fn apply_to(&self, _s: &ResourceSet) -> Result<ResourceSet, provisioning::Error> { unimplemented!() } }
+// the component API of the resource algebra (rpki-rs), declared so that code which assembles a resource set by hand is decided
+// rather than unresolvable; nothing is assumed about what the components mean
+#[derive(Clone)] pub struct AsBlocks(pub u8);
+#[derive(Clone)] pub struct Ipv4Blocks(pub u8);
+#[derive(Clone)] pub struct Ipv6Blocks(pub u8);
+impl ResourceSet {
+    pub fn new(_a: AsBlocks, _v4: Ipv4Blocks, _v6: Ipv6Blocks) -> ResourceSet { unimplemented!() }
+    pub fn asn(&self) -> &AsBlocks { unimplemented!() }
+    pub fn ipv4(&self) -> &Ipv4Blocks { unimplemented!() }
+    pub fn ipv6(&self) -> &Ipv6Blocks { unimplemented!() }
+}
+impl RequestResourceLimit {
+    pub fn asn(&self) -> Option<&AsBlocks> { unimplemented!() }
+    pub fn ipv4(&self) -> Option<&Ipv4Blocks> { unimplemented!() }
+    pub fn ipv6(&self) -> Option<&Ipv6Blocks> { unimplemented!() }
+}
 impl KrillSigner { pub fn sign_cert(&self, _t: TbsCert, _k: &KeyIdentifier) -> Result<Cert, crypto::Error> { unimplemented!() } }
 impl IssuanceTimingConfig { pub fn new_child_cert_validity(&self) -> Validity { unimplemented!() } }
 impl CsrInfo { pub fn key_id(&self) -> KeyIdentifier { unimplemented!() } }
